@@ -1,1 +1,16 @@
-//! Kani harnesses compiled as a child module of rustzx-core/src/zx/memory.rs (cfg(kani) only).
+//! Kani-only child module of rustzx-core/src/zx/memory.rs (cfg(kani)).
+#![allow(dead_code)]
+use super::*;
+
+/// Replacement for `ZXMemory::ram_page_data` in loop-cutting harnesses: the first 4 bytes of the page.
+pub(crate) fn ram_page_head<'a>(m: &'a ZXMemory, page: u8) -> &'a [u8] {
+    if (page as usize + 1) * PAGE_SIZE > m.ram.len() {
+        panic!("no such RAM page");
+    }
+    let shift = page as usize * PAGE_SIZE;
+    &m.ram[shift..shift + 4]
+}
+
+pub(crate) fn ram_len(m: &ZXMemory) -> usize {
+    m.ram.len()
+}
